@@ -124,7 +124,16 @@ def run(ctx):
     def bump(k, n=1):
         dist[k] = dist.get(k, 0) + n
 
+    vcount = {}
+    CAP = 4  # replay files per class of failure (the totals are reported in evidence)
+
+    def capped(cls):
+        vcount[cls] = vcount.get(cls, 0) + 1
+        return vcount[cls] > CAP
+
     def viol(rec, what):
+        if capped(" ".join(what.split()[:3])):
+            return
         small = {k: v for k, v in rec.items() if k not in ("subsets",)}
         ctx.violation({"case": small, "seed": ctx.seed, "tier": ctx.tier,
                        "rerun": "harness/c08: c08 one %s %s %s" % (ctx.seed, ctx.tier, rec.get("cfg"))}, what)
@@ -355,6 +364,8 @@ def run(ctx):
             key = c.digest(["pert", r["cfg"], name, mode, pk[(fam, mode, v)]])
             seen.add(key)
             if v == "OK":
+                if capped("accepted " + name + mode):
+                    continue
                 rec = {"cfg": r["cfg"], "name": name, "mode": mode}
                 rec["dump" if mode == "raw" else "dump_rs"] = r.get("dump" if mode == "raw" else "dump_rs")
                 ctx.violation({"case": rec, "seed": ctx.seed, "tier": ctx.tier,
@@ -362,6 +373,7 @@ def run(ctx):
                               "verify_cdi ACCEPTED a credential with modified %s%s" % (name, " (re-signed by the account keys)" if mode == "rs" else ""))
             elif v != "same-object":
                 nontrivial.add(key)
+    ctx.notes["failure_classes"] = vcount
     ctx.notes["perturbation_verdicts"] = {"%s/%s/%s" % k: v for k, v in sorted(pk.items())}
     ctx.notes["perturbations_per_credential"] = sorted({r["count"] for r in by.get("pertdone", [])})[-5:]
     ctx.cov["evaluations"] += len(recs)
